@@ -115,6 +115,8 @@ pub fn run(run: &mut Run) {
     run.assumptions = vec!["only the equivalences the statement lists are varied; frame byte count, z-index and header flags are never varied".into()];
     let (lanes, cases) = if run.thorough() { (16, 25000) } else { (16, 3000) };
     run_tapes(run, lanes, cases, 1500, &check);
+    // thorough only: coverage-guided search over generator tapes with the same oracle
+    crate::fuzzstage::fuzz_tapes(run, 1500, 120);
 }
 
 pub fn replay(case: &serde_json::Value) -> CheckResult {
